@@ -14,6 +14,8 @@ RULE = (
     'random prefixes (empty, ASCII, non-ASCII, clashing), built through the constructors or through with_prefix; '
     'amplitudes of either sign and coefficients log-uniform 1e-3..1e3, locations uniform / log-uniform up to 1e6, '
     'scales log-uniform 1e-6..1e6 plus the guarded region (0, negative, <1e-15), fractions in [0,1] incl. the ends; '
+    'fwhm() is also called with the full parameter dictionary of multi-peak models (2-4 peaks + background; prefixes of equal '
+    'length p1_/p2_, nested p_/p_1_/p_1_2_, empty mixed with non-empty, prefixes that look like parameter names); '
     'x at loc + k*scale (|k| <= 45) and far away; x / y units from a grid incl. scaled units; a malformed stream drops, adds '
     'or mis-prefixes a key or gives one parameter a wrong unit. Every case is evaluated by the real Model.__call__ and by '
     'the Lean model; a case is distinct by (tree, prefixes, units, parameter bits, x bits, mutation).'
@@ -252,6 +254,50 @@ def rand_xs(rng, locs, n):
     return xs
 
 
+PREFIX_FAMILIES = [
+    ['p1_', 'p2_', 'p3_', 'p4_'],            # equal length
+    ['a_', 'b_', 'c_'],                      # equal length
+    ['p_', 'p_1_', 'p_1_2_', 'p_2_'],        # one a prefix of another / nested
+    ['', 'q_', 'qq_'],                       # empty mixed with non-empty
+    ['peak', 'peak_', 'peak_s', 'peakscale'],
+    ['s', 'sc', 'scale', 'scale_'],          # prefixes that look like parameter names
+    ['é1', 'é2', 'λ_'],
+    ['x', 'y', ''],
+]
+
+
+def multi_peak(rng):
+    """several peaks (and sometimes a background) as a user would combine them: (list of leaf trees, full parameter
+    list (key, value, unit tuple)) with pairwise distinct parameter names and distinct scales"""
+    fam = list(rng.choice(PREFIX_FAMILIES))
+    if rng.random() < 0.3:
+        outer = rng.choice(['', 'm_', 'fit.'])
+        fam = [outer + f for f in fam]
+    rng.shuffle(fam)
+    k = rng.randint(2, len(fam))
+    leaves = [(rng.choice('GLV'), pre) for pre in fam[:k]]
+    if rng.random() < 0.4:
+        leaves.append(('P', rng.randint(1, 3), rng.choice(['bg_', 'b', 'zz_'])))
+    ux, uy = UNITS[rng.choice(X_UNITS)], UNITS[rng.choice(Y_UNITS)]
+    plist = []
+    for t in leaves:
+        leaf_params(rng, t, ux, uy, [], plist, [])
+    # every scale inside the guard's domain and different from the others
+    seen = set()
+    fixed = []
+    for key, v, u in plist:
+        if key.endswith('scale') and u == ux:
+            while not (v >= 1e-6) or bits(v) in seen:
+                v = logu(rng, 1e-6, 1e6)
+            seen.add(bits(v))
+        fixed.append((key, v, u))
+    keys = [key for key, _, _ in fixed]
+    if len(set(keys)) != len(keys):
+        return multi_peak(rng)
+    rng.shuffle(fixed)
+    return leaves, fixed, ux, uy
+
+
 def magnitude(t, pvals, x, path=''):
     """sum of |leaf values| (reference scale for the exp tolerance), plain double arithmetic"""
     if t[0] == 'C':
@@ -407,6 +453,15 @@ def _correspond_meta(ctx):
         key = rng.choice([_prefix(t) + 'scale', _prefix(t) + 'scale', 'scale', _prefix(t) + 'Scale'])
         fw.append((t, key, scale, u))
         lines.append(' '.join(['c16.fwhm', *tree_tokens(t), '|', hexs(key), bits(scale), ustr(u)]))
+    n_single = len(fw)
+    for _ in range(ctx.n(150, 6000)):
+        leaves, plist, _, _ = multi_peak(rng)
+        for t in leaves:
+            fw.append((t, None, plist, None))
+            toks = ['c16.fwhm', *tree_tokens(t), '|']
+            for k, v, u in plist:
+                toks += [hexs(k), bits(v), ustr(u)]
+            lines.append(' '.join(toks))
     outs = ctx.driver(lines)
     for i, t in enumerate(trees):
         via = rng.random() < 0.5
@@ -426,22 +481,28 @@ def _correspond_meta(ctx):
             ctx.disagree({'op': 'names', 'tree': t}, impl_names, mn)
         if canon(mb) != impl_bounds:
             ctx.disagree({'op': 'bounds', 'tree': t}, impl_bounds, mb)
-    for (t, key, scale, u), out in zip(fw, outs[2 * len(trees):]):
+    for j, ((t, key, scale, u), out) in enumerate(zip(fw, outs[2 * len(trees):])):
+        superset = j >= n_single
         try:
-            m = build(t, False)
-            r = m.fwhm({key: sc.scalar(scale, unit=sc_unit(u))})
+            m = build(t, rng.random() < 0.5)
+            if superset:  # the whole parameter dictionary of a multi-peak model; fwhm picks its own scale
+                r = m.fwhm({k: sc.scalar(v, unit=sc_unit(uu)) for k, v, uu in scale})
+            else:
+                r = m.fwhm({key: sc.scalar(scale, unit=sc_unit(u))})
             impl = ('ok', r.unit, float(r.value))
         except Exception as e:  # noqa: BLE001
             impl = err_kind(e)
-        ctx.case(('fwhm', t, key, bits(scale), u), True)
-        ctx.count('fwhm:' + (impl if isinstance(impl, str) else 'ok'))
+        case = ({'op': 'fwhm', 'tree': t, 'params': [(k, bits(v), uu) for k, v, uu in scale]} if superset
+                else {'op': 'fwhm', 'tree': t, 'key': key, 'scale': bits(scale)})
+        ctx.case(('fwhm', repr(case)), True, sample=case if superset else None)
+        ctx.count(('fwhm-superset:' if superset else 'fwhm:') + (impl if isinstance(impl, str) else 'ok'))
         if isinstance(impl, str) or not out.startswith('ok '):
             if impl != out:
-                ctx.disagree({'op': 'fwhm', 'tree': t, 'key': key}, impl if isinstance(impl, str) else 'ok', out)
+                ctx.disagree(case, impl if isinstance(impl, str) else 'ok', out)
             continue
         toks = out.split()
         if impl[1] != sc_unit(tuple(int(i) for i in toks[1].split(','))) or bits(impl[2]) != toks[2]:
-            ctx.disagree({'op': 'fwhm', 'tree': t, 'key': key, 'scale': bits(scale)}, [str(impl[1]), bits(impl[2])], out)
+            ctx.disagree(case, [str(impl[1]), bits(impl[2])], out)
 
 
 # ------------------------------------------------------------------------------------------------
@@ -679,7 +740,45 @@ def check_guess(a):
     return None
 
 
+def check_fwhm_foreign(a):
+    """fwhm() given the full parameter dictionary of a multi-peak model must report the FWHM of the model's OWN scale:
+    equal to fwhm() of the own parameters alone, and f(loc ± fwhm/2) = f(loc)/2 with it"""
+    import numpy as np
+    import scipp as sc
+
+    full = {k: sc.scalar(v, unit=sc_unit(tuple(u))) for k, v, u in a['params']}
+    for t in a['leaves']:
+        t = tuple_tree(t)
+        if t[0] == 'P':
+            continue
+        m = build(t)
+        pre = _prefix(t)
+        own = {k: full[k] for k in m.param_names}
+        try:
+            fw_full = m.fwhm(full)
+        except Exception as e:  # noqa: BLE001
+            return f'fwhm of peak {pre!r} with the full parameter dictionary raised {type(e).__name__}: {e}'
+        fw_own = m.fwhm(own)
+        scale = own[pre + 'scale']
+        if fw_full.unit != scale.unit:
+            return f'FWHM of peak {pre!r} has unit {fw_full.unit}, its scale has {scale.unit}'
+        if bits(float(fw_full.value)) != bits(float(fw_own.value)):
+            return (f'peak {pre!r} (scale {float(scale.value)!r}) reports FWHM {float(fw_full.value)!r} when given the parameters of all '
+                    f'peaks {sorted(full)} but {float(fw_own.value)!r} when given its own')
+        mu, h = float(own[pre + 'loc'].value), float(fw_full.value) / 2
+        x = sc.array(dims=['x'], values=np.array([mu, mu + h, mu - h]), unit=scale.unit)
+        with np.errstate(all='ignore'):
+            y = m(x, **own).values
+        tol = 1e-11 + 8 * float(np.spacing(abs(mu) + h)) / float(scale.value)
+        for i in (1, 2):
+            if not abs(y[i] - y[0] / 2) <= tol * abs(y[0] / 2):
+                return (f'peak {pre!r}: f(loc)={float(y[0])!r}, f(loc{"+-"[i - 1]}fwhm/2)={float(y[i])!r} with the FWHM '
+                        f'{float(fw_full.value)!r} reported for the full parameter dictionary (tolerance {tol:.3g})')
+    return None
+
+
 CHECKS = {
+    'C16:fwhm-foreign-parameter': check_fwhm_foreign,
     'C16:normalisation': check_integral,
     'C16:symmetry': check_symmetry,
     'C16:half-max-at-fwhm': check_half_max,
@@ -720,6 +819,8 @@ def oracle(ctx, deep):
             b['ts'] = [rng.randint(0, 2**20) / 1024.0 * 2.0 ** rng.randint(-8, 4) for _ in range(4)]
             b['ts'] = [t for t in b['ts'] if (b['mu'] + t) - b['mu'] == t and b['mu'] - (b['mu'] - t) == t]
             _run(ctx, 'C16:symmetry', b)
+        leaves, plist, _, _ = multi_peak(rng)
+        _run(ctx, 'C16:fwhm-foreign-parameter', {'leaves': [list(t) for t in leaves], 'params': [(k, v, list(u)) for k, v, u in plist]})
         deg = rng.randint(1, 6)
         _run(ctx, 'C16:polynomial-sum', {'coef': [rng.choice([-1, 1]) * logu(rng, 1e-3, 1e3) for _ in range(deg + 1)],
                                           'xs': [rng.uniform(-10, 10) for _ in range(3)] + [rng.choice([-1, 1]) * logu(rng, 1e-6, 1e6)]})
